@@ -2,6 +2,7 @@
 import z3
 from .engine import Violation, PathEnd, Unsupported, SymIndex, NULL
 from .ir import PtrT
+from . import domain
 
 OVERRIDE = set()   # names that are intrinsics even if the module defines them
 
@@ -30,7 +31,7 @@ def uk_choice(E, st, fr, I, a):
     c = z3.ULT(v, z3.BitVecVal(n, 32))
     m = E.feasible(st, c)
     if m is None: raise PathEnd()
-    st.model = m; E.push(c); return v
+    st.vals = m; E.assume(st, c); return v
 
 def uk_assume(E, st, fr, I, a):
     c = a[0]
@@ -39,7 +40,7 @@ def uk_assume(E, st, fr, I, a):
         return
     c = E.tobool(c); m = E.feasible(st, c)
     if m is None: st.assumed = True; raise PathEnd()
-    st.model = m; E.push(c)
+    st.vals = m; E.assume(st, c)
 
 def uk_assert(E, st, fr, I, a):
     c = a[0]; msg = E.cstring(st, a[1]) or 'assertion'
@@ -50,21 +51,24 @@ def uk_assert(E, st, fr, I, a):
         if not c: raise Violation('assert', msg)
         return
     c = E.tobool(c); nc = z3.Not(c)
-    if E.holds_in_model(st, nc): bad = st.model
+    if E.holds(st, nc): bad = st.vals
     else:
-        E.stats['asserts_solver'] += 1; bad = E.check(nc)
+        E.stats['asserts_solver'] += 1; bad = E.check(nc)      # proof obligations always go to z3
+        if bad is not None: bad = E.vals_from_model(st, bad)
     if bad is not None:
         good = E.feasible(st, c)
-        keep = st.model; st.model = bad
+        st.vals = bad
         E.report(st, 'assert', msg)
         if good is None: raise PathEnd()
-        st.model = good; E.push(c)
+        st.vals = good; E.assume(st, c)
 
 def uk_cover(E, st, fr, I, a): st.covers.append(E.cstring(st, a[0]))
 def uk_note(E, st, fr, I, a):
-    v = a[1]
-    if type(v) is not int and type(v) is not tuple and st.model is not None: v = st.model.eval(v, model_completion=True).as_long()
-    if len(st.notes) < 16: st.notes.append([E.cstring(st, a[0]), v if type(v) is int else str(v)])
+    if len(st.notes) < 16: st.notes.append(['$val', E.cstring(st, a[0]), a[1]])
+
+def uk_note_text(E, st, fr, I, a):
+    # remember (label, pointer, count, element size); rendered under the witness assignment when reported
+    if len(st.notes) < 16: st.notes.append(['$text', E.cstring(st, a[0]), a[1], conc(E, a[2]), conc(E, a[3])])
 
 def do_malloc(E, st, n, tag, site):
     oid = E.new_obj(st, n, 'h', 'heap:%s:%s' % (tag, site), site); st.live[oid] = tag; return ('P', oid, 0)
@@ -166,7 +170,7 @@ def abort(E, st, fr, I, a): raise Violation('abort', 'abort() called')
 
 TABLE = {
     'uk_sym_bytes': uk_sym_bytes, 'uk_sym_words': uk_sym_words, 'uk_sym_int': uk_sym_int, 'uk_sym_long': uk_sym_long,
-    'uk_choice': uk_choice, 'uk_assume': uk_assume, 'uk_assert': uk_assert, 'uk_cover': uk_cover, 'uk_note': uk_note,
+    'uk_choice': uk_choice, 'uk_assume': uk_assume, 'uk_assert': uk_assert, 'uk_cover': uk_cover, 'uk_note': uk_note, 'uk_note_text': uk_note_text,
     'uk_malloc': uk_malloc, 'uk_free': uk_free, 'uk_live': uk_live, 'uk_live_libc': uk_live_libc, 'uk_libc_calls': uk_libc_calls,
     'uk_buf': uk_buf, 'uk_readonly': uk_readonly, 'uk_writable': uk_writable, 'uk_kill': uk_kill, 'uk_watch': uk_watch,
     'uk_limit': uk_limit, 'uk_unlimit': uk_unlimit, 'uk_objsize': uk_objsize, 'uk_is_sym': uk_is_sym, 'uk_same_object': uk_same_object,
